@@ -213,6 +213,14 @@ class NbFile:
         ctx.array_fact("CNF", lambda p, i: sv.zb(sv.and_(self.wellformed(z(p), z(i), 0), self.max_fact(z(p), z(i)))))
 
 
+def _free_cell(n, d):
+    """a real frame always carries its cell; on the unwrapped-coordinate paths nothing may depend on it: a free function of (frame,
+    row, column), not a heap array (an extra symbolic input array made one d = 3 cage loop-step query undecided after the library
+    tables were corrected: the obligation does not mention the cell, the solver's search did)"""
+    HF = z3.Function("Hfree", z3.IntSort(), z3.IntSort(), z3.IntSort(), z3.RealSort())
+    return A.new_arr((d, d), lambda idx: sv.SV(HF(sv.znum(n), sv.znum(idx[0]), sv.znum(idx[1]))), "float")
+
+
 class World:
     def __init__(self, ctx, d, pbc, cage, cond, fast, log_cond=False):
         self.d, self.pbc, self.cage, self.cond, self.fast = d, pbc, cage, cond, fast
@@ -228,9 +236,8 @@ class World:
         self.ptype = ctx.array("ptype", (T, N), "int", origin="particle types")
         self.qconst = ctx.real("qconst")
         self.log_cond = log_cond
-        # every frame carries its cell (a real SingleSnapshot always has hmatrix); only the PBC cases constrain / use it
-        self.HM = ctx.array("H", (T, d, d), "float", origin="cells of the trajectory")
         if pbc:
+            self.HM = ctx.array("H", (T, d, d), "float", origin="cells of the trajectory")
             self.p = [ctx.int(f"ppp_{k}") for k in range(d)]
             for pk in self.p:
                 ctx.assume(sv.and_(sv.cmp(">=", pk, 0), sv.cmp("<=", pk, 1)))
@@ -342,7 +349,7 @@ class World:
         cls = load_module(RU).get_class("SingleSnapshot")
         attrs = {"positions": A.getitem(self.X, n), "nparticle": self.N, "timestep": self.TS.get((n,)),
                  "particle_type": A.getitem(self.ptype, n)}
-        attrs["hmatrix"] = A.getitem(self.HM, n)
+        attrs["hmatrix"] = A.getitem(self.HM, n) if self.pbc else _free_cell(n, self.d)
         return new_obj(cls, attrs, frozen=True)
 
     def snapshots(self, ctx):
@@ -632,7 +639,7 @@ class DynRelaxation(Unit):
                                           "x_snapshots": None, "PBC": pbc, "time": W.tm, "diameters": W.diam, "a2_cuts": W.a2,
                                           "neighborlists": W.neighborlists()})
         k = ctx.int("k")
-        inp = dict(W=W, k=k, watch=[W.X.sid, W.tm.sid, W.diam.sid, W.a2.sid, W.ppp.sid] + [W.HM.sid] + ([W.C.sid] if cond else []))
+        inp = dict(W=W, k=k, watch=[W.X.sid, W.tm.sid, W.diam.sid, W.a2.sid, W.ppp.sid] + ([W.HM.sid] if pbc else []) + ([W.C.sid] if cond else []))
         return [self_, W.qconst, (W.C if cond else None), ""], {}, inp
 
     def clause_names(self, case):
@@ -727,7 +734,7 @@ class LogRelaxation(Unit):
                                              "x_snapshots": None, "PBC": pbc, "time": W.tm, "diameters": W.diam, "a2_cuts": W.a2,
                                              "neighborlists": nl})
         k = ctx.int("k")
-        inp = dict(W=W, k=k, watch=[W.X.sid, W.tm.sid, W.diam.sid, W.a2.sid, W.ppp.sid] + [W.HM.sid] + ([W.C.sid] if cond else []))
+        inp = dict(W=W, k=k, watch=[W.X.sid, W.tm.sid, W.diam.sid, W.a2.sid, W.ppp.sid] + ([W.HM.sid] if pbc else []) + ([W.C.sid] if cond else []))
         return [self_, W.qconst, (W.C if cond else None), ""], {}, inp
 
     def clause_names(self, case):
@@ -1533,7 +1540,7 @@ class DynSq4(Unit):
                 attrs = {"positions": A.getitem(W.X, n) if tag == 0 else A.new_arr((N, d), lambda idx: sv.SV(z3.Function("XS", I_, I_, I_, R_)(sv.znum(n), sv.znum(idx[0]), sv.znum(idx[1]))), "float"),   # = XSf below
                          "nparticle": N, "timestep": sv.SV(TAG(z3.IntVal(tag), sv.znum(n))), "particle_type": A.getitem(W.ptype, n),
                          "boxlength": A.new_arr((d,), lambda idx: sv.SV(BL(z3.IntVal(tag), sv.znum(n), sv.znum(idx[0]))), "float")}
-                attrs["hmatrix"] = A.getitem(W.HM, n)
+                attrs["hmatrix"] = A.getitem(W.HM, n) if pbc else _free_cell(n, d)
                 return new_obj(cls, attrs, frozen=True)
             return f
 
@@ -1733,7 +1740,7 @@ class DynSq4(Unit):
                 return sv.zb(sv.cmp("==", sv.SV(CS(n.t, g.t, ci)), csq_spec(n, g, ci.as_long())))
             return z3.BoolVal(True)
         inp = dict(W=W, T=T, G=G, CS=cs, CSspec=csq_spec, CSdef=cs_def, lag=lag, norig=norig, of=of, g=ctx.int("g"),
-                   watch=[W.X.sid, W.tm.sid, W.diam.sid, W.a2.sid, W.ppp.sid] + [W.HM.sid] + ([W.C.sid] if cond else []))
+                   watch=[W.X.sid, W.tm.sid, W.diam.sid, W.a2.sid, W.ppp.sid] + ([W.HM.sid] if pbc else []) + ([W.C.sid] if cond else []))
         return [self_, t, qrange, (W.C if cond else None), of], {}, inp
 
     def clause_names(self, case):
